@@ -29,9 +29,10 @@ EXC = {
 
 class StepClock(object):
     __slots__ = ("steps", "budget", "inject_k", "inject_exc", "inject_expect", "tail", "_tail_n",
-                 "track", "sites", "fired", "mismatch", "_codes", "trace_sites", "site_at")
+                 "track", "sites", "fired", "mismatch", "_codes", "trace_sites", "site_at",
+                 "with_exits", "_with_seen", "_with_lines")
 
-    def __init__(self, budget=None, inject=None, track=False, tail=0, site_at=None):
+    def __init__(self, budget=None, inject=None, track=False, tail=0, site_at=None, with_exits=False):
         self.steps = 0
         self.budget = budget
         self.inject_k = None
@@ -53,6 +54,11 @@ class StepClock(object):
         self.fired = None
         self.mismatch = None
         self._codes = {}
+        # k of every line event that is the re-visit of a `with` header when its block is left normally:
+        # the only thing that can fail there is __exit__ itself, which the I/O seam models (close_err)
+        self.with_exits = [] if with_exits else None
+        self._with_seen = {}
+        self._with_lines = {}
 
     # ------------------------------------------------------------------
     def start(self):
@@ -70,10 +76,28 @@ class StepClock(object):
             self._codes[code] = ok
         return self._local if ok else None
 
+    def _is_with_line(self, code, lineno):
+        key = (code, lineno)
+        r = self._with_lines.get(key)
+        if r is None:
+            import linecache
+            src = linecache.getline(code.co_filename, lineno).lstrip()
+            r = src.startswith("with ") or src.startswith("async with ")
+            self._with_lines[key] = r
+        return r
+
     def _local(self, frame, event, arg):
         if event != "line":
+            if event == "return" and self.with_exits is not None:
+                self._with_seen.pop(id(frame), None)
             return self._local
         self.steps = k = self.steps + 1
+        if self.with_exits is not None and self._is_with_line(frame.f_code, frame.f_lineno):
+            seen = self._with_seen.setdefault(id(frame), set())
+            if frame.f_lineno in seen:
+                self.with_exits.append(k)
+            else:
+                seen.add(frame.f_lineno)
         if self.track:
             key = (frame.f_code.co_filename, frame.f_lineno)
             self.sites[key] = self.sites.get(key, 0) + 1
